@@ -8,7 +8,7 @@
 From Coq Require Import List ZArith Lia.
 From DepsDev Require Import Lib.Base Lib.Order Semver.Version Semver.Pep440 Semver.Pep440Parse Semver.Compare
   Spec.Pep440Spec Semver.Pep440Abs Semver.Pep440_proofs Semver.Pep440Parse_proofs Semver.Pep440C02_proofs
-  Semver.Pep440Link_proofs.
+  Semver.Pep440Link_proofs Semver.Pep440Print_proofs Semver.Pep440Accept_proofs.
 Import ListNotations.
 Local Open Scope Z_scope.
 
@@ -144,6 +144,14 @@ Proof.
   destruct C02_pypi_accepts_witness_epoch as (E & _ & P). rewrite E, P in Hv. discriminate.
 Qed.
 Print Assumptions C02_pypi_accepts_refuted.
+
+(* Every normalised form whose epoch is at most 255 and whose release numbers are below
+   2^63-1 is accepted (pre, post and dev numbers and local segments of any size). *)
+Theorem C02_pypi_accepts_partial p : pv_wf p -> s_release p <> [] -> s_epoch p <= 255 ->
+  Forall (fun n => n < infinity) (s_release p) ->
+  exists v, parse_pypi (spec_normal p) = Ok v.
+Proof. exact (c02_accepts p). Qed.
+Print Assumptions C02_pypi_accepts_partial.
 
 (* Spellings that the reference accepts and Parse rejects, but which are not normalised
    forms (the property does not demand them): 10A1-dev1 (normal form 10a1.dev1, accepted)
